@@ -255,8 +255,23 @@ def class_helpers(module, cls, skip=()):
     return out
 
 
+def class_tables(module, cls):
+    """the class-level constants of one class that a writer may read: texts, and small tables (dict / tuple) of texts keyed by constants
+    -- as the `tables` of Interp (name as written in the class body -> value)"""
+    out = {}
+    for nm, v in (module.consts.get(cls, {}) or {}).items():
+        if isinstance(v, str):
+            out[nm] = v
+        elif isinstance(v, dict) and all(isinstance(k, (str, int, bool, type(None))) for k in v) and all(isinstance(x, str) for x in v.values()):
+            out[nm] = dict(v)
+        elif isinstance(v, (tuple, list)) and all(isinstance(x, str) for x in v):
+            out[nm] = tuple(v)
+    return out
+
+
 class Interp:
-    def __init__(self, decisions, cls=None, call_hook=None, depth=4, cond_hook=None, subscript_hook=None, methods=None):
+    def __init__(self, decisions, cls=None, call_hook=None, depth=4, cond_hook=None, subscript_hook=None, methods=None, tables=None):
+        self.tables = tables or {}    # class-level constant -> text / table of texts (read as <Class>.NAME, cls.NAME, self.NAME)
         self.methods = methods or {}  # name -> (FunctionDef, 'static' | 'class' | 'instance'): helpers of the class, interpreted in place
         self.dec = decisions          # key -> bool
         self.cls = cls                # class name for private-name mangling / self fields
@@ -385,6 +400,12 @@ class Interp:
                 if r is not NotImplemented:
                     return r
             base = self.resolve(self.ev(e.value, env))
+            if isinstance(base, dict) and base and all(isinstance(k_, bool) for k_ in base) and not isinstance(e.slice, ast.Constant):
+                # a two-entry table indexed by a truth value (`PREFIX[not enabled]`): the entry of the truth value this world decides
+                k_ = self.cond(e.slice, env)
+                if k_ not in base:
+                    raise Raised('KeyError %r' % (k_,))
+                return base[k_]
             try:
                 key = ast.literal_eval(e.slice)
             except ValueError:
@@ -408,6 +429,12 @@ class Interp:
                             raise _nt(e, '(unbound method)')
                         c_.bound = [env[e.value.id]]
                     return c_
+            if isinstance(e.value, ast.Name) and e.value.id in (self.cls, 'cls', 'self') and e.attr in self.tables and not (e.value.id in env and e.value.id == self.cls):
+                tv_ = self.tables[e.attr]
+                if isinstance(tv_, str):
+                    return Lit(tv_)
+                if isinstance(tv_, dict):
+                    return {k_: Lit(v_) for k_, v_ in tv_.items()}
             basev = self.ev(e.value, env)
             attr = e.attr
             if isinstance(e.value, ast.Name) and e.value.id == 'self' and self.cls:
@@ -438,6 +465,8 @@ class Interp:
                 return self.ev(e.elt, env2)
             lo = ListOf(self.alts(one), lst.src)
             lo.nonempty = getattr(lst, 'nonempty', False)
+            if getattr(lst, 'exact_one', False):
+                lo.exact_one = True          # one item in, one item out
             return lo
         if isinstance(e, ast.List):
             if not e.elts:
